@@ -85,6 +85,12 @@ Theorem C23_cr_member_lossless : forall x wire rest,
 Proof. exact (roundtrip_any_order cr_member cr_member_ok). Qed.
 Print Assumptions C23_cr_member_lossless.
 
+Theorem C23_cr_state_key_frame_lossless : forall x wire rest,
+  wf cr_state_key_frame x -> encs cr_state_key_frame x wire ->
+  dec cr_state_key_frame (wire ++ rest) = Some (x, rest).
+Proof. exact (roundtrip_any_order cr_state_key_frame cr_state_key_frame_ok). Qed.
+Print Assumptions C23_cr_state_key_frame_lossless.
+
 (* the canonical encoding (maps written in key order) is one of the allowed
    encodings, so the statements above are not vacuous in [encs] *)
 Theorem C23_canonical_encoding_decodes : forall x,
